@@ -7,6 +7,7 @@
 import PM.Step
 import Proofs.ReplaceValid
 import Proofs.StepValid
+import Proofs.MarkupSuccess
 namespace PM.C01
 open PM
 
@@ -181,5 +182,54 @@ theorem slice_payload_valid (S : Schema) (src : Node) (f t : Nat) (sl : Slice)
     (hs : Valid S src) (h : src.slice f t = .ok sl) :
     openValid S sl.openStart sl.openEnd sl.content = true := by
   exact slice_openValid S src f t sl hs h
+
+/-! ## When the node-markup steps apply (success half; helper lemmas: Proofs/MarkupSuccess.lean)
+
+On a valid, normal-form document the three node-level steps do not fail for structural reasons: the
+replace they end in (`replace(pos, pos + 1, ⟨[u], 0, 0 | 1⟩)`) applies **iff** the parent of the addressed
+node allows the mark set of the re-created node `u`; the result is the document with exactly that
+node's markup exchanged (`remarkAt`).  The remaining preconditions are the ones the step itself checks
+before the replace: a non-text node starts at `pos` (`node_at`), and its attribute set computes
+(`recreate`). -/
+
+/-- **attribute step**: marks unchanged, so the parent accepts the node — the step applies -/
+theorem attr_applies (S : Schema) (ty : TypeId) (a : Attrs) (mk : Marks) (kids : List Node)
+    (pos : Nat) (name value : String) (n u : Node)
+    (hd : Valid S (.elem ty a mk kids)) (hn : fnorm kids = true)
+    (hat : (Node.elem ty a mk kids).nodeAt pos = .ok (some n))
+    (hu : S.recreate n (n.attrs.filter (·.1 != name) ++ [(name, value)]) n.marks = .ok u) :
+    S.apply (.attr pos name value) (.elem ty a mk kids) = .ok (.elem ty a mk (remarkAt kids pos u)) :=
+  attrStep_applies S ty a mk kids pos name value n u hd hn hat hu
+
+/-- **add-node-mark step**: applies iff the parent of the addressed node allows the new mark set
+    (`parentTyAt` = type of that parent); otherwise the result is a failure, never an invalid document -/
+theorem addNodeMark_applies_iff (S : Schema) (ty : TypeId) (a : Attrs) (mk : Marks) (kids : List Node)
+    (pos : Nat) (m : Mark) (n u : Node)
+    (hd : Valid S (.elem ty a mk kids)) (hn : fnorm kids = true)
+    (hat : (Node.elem ty a mk kids).nodeAt pos = .ok (some n))
+    (hu : S.recreate n n.attrs (m.addToSet S n.marks) = .ok u) :
+    S.apply (.addNodeMark pos m) (.elem ty a mk kids) =
+      if (S.nodeType (parentTyAt ty kids pos)).allowsMarks (m.addToSet S n.marks)
+      then .ok (.elem ty a mk (remarkAt kids pos u)) else .error .failed :=
+  PM.addNodeMark_applies_iff S ty a mk kids pos m n u hd hn hat hu
+
+/-- sufficient for the add-node-mark step: the parent allows the mark's type -/
+theorem addNodeMark_applies (S : Schema) (ty : TypeId) (a : Attrs) (mk : Marks) (kids : List Node)
+    (pos : Nat) (m : Mark) (n u : Node)
+    (hd : Valid S (.elem ty a mk kids)) (hn : fnorm kids = true)
+    (hat : (Node.elem ty a mk kids).nodeAt pos = .ok (some n))
+    (hu : S.recreate n n.attrs (m.addToSet S n.marks) = .ok u)
+    (hp : (S.nodeType (parentTyAt ty kids pos)).allowsMarkType m.ty = true) :
+    S.apply (.addNodeMark pos m) (.elem ty a mk kids) = .ok (.elem ty a mk (remarkAt kids pos u)) :=
+  PM.addNodeMark_applies S ty a mk kids pos m n u hd hn hat hu hp
+
+/-- **remove-node-mark step**: always applies (a subset of an allowed mark set is allowed) -/
+theorem removeNodeMark_applies (S : Schema) (ty : TypeId) (a : Attrs) (mk : Marks) (kids : List Node)
+    (pos : Nat) (m : Mark) (n u : Node)
+    (hd : Valid S (.elem ty a mk kids)) (hn : fnorm kids = true)
+    (hat : (Node.elem ty a mk kids).nodeAt pos = .ok (some n))
+    (hu : S.recreate n n.attrs (m.removeFromSet n.marks) = .ok u) :
+    S.apply (.removeNodeMark pos m) (.elem ty a mk kids) = .ok (.elem ty a mk (remarkAt kids pos u)) :=
+  PM.removeNodeMark_applies S ty a mk kids pos m n u hd hn hat hu
 
 end PM.C01
